@@ -133,7 +133,16 @@ type Cover struct {
 	Result string
 }
 
+type loopFrame struct {
+	key     string
+	head    string // heap term at the loop head
+	targets []modTarget
+}
+
 type loopInfo struct {
+	frames   []loopFrame
+	allocPre string
+	preSt    *State
 	header  *ssa.BasicBlock
 	blocks  map[*ssa.BasicBlock]bool
 	ordinal int
@@ -154,6 +163,7 @@ type Frame struct {
 	callOrd map[string]int
 	results []Term
 	retPCs  []string
+	rets    []retInfo
 	allocByName map[string][]*ssa.Alloc
 	curBlock *ssa.BasicBlock
 	curLoopHdr *ssa.BasicBlock
@@ -558,9 +568,9 @@ func (vc *VC) elemFn(es string) string {
 	fn := q("elem!" + es)
 	if !vc.declared[fn] {
 		vc.declared[fn] = true
-		ms := arrSort(SInt, arrSort(SInt, es))
+		ms := arrSort(SInt, es)
 		vc.emit(fmt.Sprintf("(declare-fun %s (%s Slice Int) %s)", fn, ms, es))
-		vc.emit(fmt.Sprintf("(assert (forall ((m %s) (s Slice) (k Int)) (! (= (%s m s k) (select (select m (sl.base s)) (+ (sl.off s) k))) :pattern ((%s m s k)))))", ms, fn, fn))
+		vc.emit(fmt.Sprintf("(assert (forall ((m %s) (s Slice) (k Int)) (! (= (%s m s k) (select m (+ (sl.off s) k))) :pattern ((%s m s k)))))", ms, fn, fn))
 	}
 	return fn
 }
@@ -630,7 +640,7 @@ func (vc *VC) load(st *State, l *LVal) Term {
 		h := vc.heapGet(st, l.Key)
 		raw := sel(sel(h.S, l.Ref), l.Idx)
 		if l.Sl != "" {
-			raw = app(vc.elemFn(vc.sortOf(l.T)), h.S, l.Sl, l.RelIdx)
+			raw = app(vc.elemFn(vc.sortOf(l.T)), sel(h.S, "(sl.base "+l.Sl+")"), l.Sl, l.RelIdx)
 		}
 		v := vc.define("ld", vc.sortOf(l.T), raw)
 		vc.assumeAllocated(st, l.T, v)
@@ -1128,6 +1138,7 @@ func (vc *VC) execFunc(fr *Frame, args []Term, st *State, pc string) ([]Term, *S
 	for _, r := range rets {
 		fr.retPCs = append(fr.retPCs, r.pc)
 	}
+	fr.rets = rets
 	return res, out, opc
 }
 
@@ -1187,6 +1198,8 @@ func (vc *VC) cutLoop(fr *Frame, li *loopInfo, entrySt *State, entryPC string, i
 		fr.vals[phi] = Sym{T: v}
 	}
 	fr.curLoopHdr = h
+	li.preSt = entrySt.clone()
+	li.allocPre = vc.heapGet(entrySt, "ALLOC").S
 	env := vc.envAt(fr, entrySt)
 	for i, inv := range li.spec.Invs {
 		g := vc.evalBool(env, inv.Expr)
@@ -1233,8 +1246,37 @@ func (vc *VC) cutLoop(fr *Frame, li *loopInfo, entrySt *State, entryPC string, i
 		}
 		later = append(later, k)
 	}
-	for _, k := range later {
-		vc.havocKey(st, k, "lh")
+	li.frames = nil
+	if li.spec.HasModifies {
+		// declared loop frame: a heap key changes only at the listed locations and at objects allocated inside the loop
+		tenv := vc.envAt(fr, entrySt)
+		byKey := map[string][]modTarget{}
+		for _, t := range vc.modTargetsOf(tenv, li.spec.Modifies) {
+			byKey[t.key] = append(byKey[t.key], t)
+		}
+		li.allocPre = vc.heapGet(entrySt, "ALLOC").S
+		for _, k := range later {
+			ts := byKey[k]
+			whole := false
+			for _, t := range ts {
+				if t.whole {
+					whole = true
+				}
+			}
+			if whole || strings.HasPrefix(k, "RV:") {
+				vc.havocKey(st, k, "lh")
+				continue
+			}
+			pre := vc.heapGet(entrySt, k).S
+			hh := vc.havocKey(st, k, "lh")
+			st.bases[k] = vc.baseOf(entrySt, k) // unlisted old locations keep their pre-loop value
+			vc.emit(vc.frameFact(k, hh, pre, li.allocPre, ts))
+			li.frames = append(li.frames, loopFrame{k, hh, ts})
+		}
+	} else {
+		for _, k := range later {
+			vc.havocKey(st, k, "lh")
+		}
 	}
 	for phi := range phiEntry {
 		s := vc.sortOf(phi.Type())
@@ -1288,6 +1330,14 @@ func (vc *VC) checkBackEdge(fr *Frame, li *loopInfo, eo edgeOut, from *ssa.Basic
 			lab = fmt.Sprint(i)
 		}
 		vc.oblige(fmt.Sprintf("loop%d.preserve", li.ordinal), lab, eo.cond, g, from.Instrs[len(from.Instrs)-1].Pos(), inv.Src)
+	}
+	for _, lf := range li.frames {
+		cur := vc.heapGet(eo.st, lf.key).S
+		if cur == lf.head {
+			continue
+		}
+		label := strings.NewReplacer(" ", "", "(", "", ")", "").Replace(lf.key)
+		vc.oblige(fmt.Sprintf("loop%d.frame", li.ordinal), label, eo.cond, vc.frameGoal(lf.key, cur, lf.head, li.allocPre, lf.targets), from.Instrs[len(from.Instrs)-1].Pos(), "loop modifies only what it declares: "+lf.key)
 	}
 	if li.spec.Decr != nil {
 		d := vc.evalTerm(env, li.spec.Decr.Expr)
@@ -1402,4 +1452,43 @@ func (vc *VC) globalSym(st *State, g *ssa.Global) Sym {
 	key := "G:" + g.Pkg.Pkg.Path() + "." + g.Name()
 	vc.regKey(key, vc.sortOf(et))
 	return Sym{L: &LVal{Kind: LGlobal, Key: key, T: et}}
+}
+
+// frameHyp: the location (r[,j]) existed before frontier and is not one of the targets.
+func frameHyp(key, r, j, frontier string, ts []modTarget) string {
+	hyp := []string{"(< (rootof " + r + ") " + frontier + ")"}
+	for _, t := range ts {
+		if strings.HasPrefix(key, "M:") && t.lo != "" {
+			hyp = append(hyp, fmt.Sprintf("(not (and (= %s %s) (<= %s %s) (< %s %s)))", r, t.ref, t.lo, j, j, t.hi))
+		} else {
+			hyp = append(hyp, "(not (= "+r+" "+t.ref+"))")
+		}
+	}
+	return mkAnd(hyp...)
+}
+
+// frameFact: quantified assumption that heap version `now` agrees with `before` outside the targets.
+func (vc *VC) frameFact(key, now, before, frontier string, ts []modTarget) string {
+	if strings.HasPrefix(key, "G:") || key == "ALLOC" {
+		return "(assert (= " + now + " " + before + "))"
+	}
+	if strings.HasPrefix(key, "M:") {
+		return fmt.Sprintf("(assert (forall ((r Int) (j Int)) (! (=> %s (= (select (select %s r) j) (select (select %s r) j))) :pattern ((select (select %s r) j)))))",
+			frameHyp(key, "r", "j", frontier, ts), now, before, now)
+	}
+	return fmt.Sprintf("(assert (forall ((r Int)) (! (=> %s (= (select %s r) (select %s r))) :pattern ((select %s r)))))",
+		frameHyp(key, "r", "", frontier, ts), now, before, now)
+}
+
+// frameGoal: the same statement for skolem locations, as a proof obligation.
+func (vc *VC) frameGoal(key, now, before, frontier string, ts []modTarget) string {
+	if strings.HasPrefix(key, "G:") {
+		return mkEq(now, before)
+	}
+	r := vc.fresh("fr_r", SInt)
+	if strings.HasPrefix(key, "M:") {
+		j := vc.fresh("fr_j", SInt)
+		return mkImp(frameHyp(key, r, j, frontier, ts), mkEq(sel(sel(now, r), j), sel(sel(before, r), j)))
+	}
+	return mkImp(frameHyp(key, r, "", frontier, ts), mkEq(sel(now, r), sel(before, r)))
 }
